@@ -31,7 +31,7 @@ REQUIRED = ['oracle.request-wellformed', 'oracle.usable-contexts', 'oracle.looku
 
 POOL = ['1.2.840.10008.5.1.4.1.1.%d' % i for i in range(1, 200)]
 TS3 = [F.EXPLICIT, F.IMPLICIT, b'1.2.840.10008.1.2.2']
-NRANDOM = {'quick': 1500, 'thorough': 40000}
+NRANDOM = {'quick': 1500, 'thorough': 200000}
 
 
 def exhaustive(tier):
